@@ -90,4 +90,48 @@ def lwfDump (l : List (Path × List Name)) : Bool :=
 def tidyWorld (w : World) : Bool :=
   nodupKeys (w.entries.map (·.1)) && w.entries.all (fun x => x.1.all plainName)
 
+/-! ### wave 3, second pass: the member predicate stated on the inode table itself -/
+
+/-- `n` is an entry of the directory that the prefix `pre` names, read off the inode table: the path
+    has no NUL, a descriptor is free, the look-up of the directory (`FileSystem::get`: every directory on
+    the way searchable by its owner, `.`/`..`/trailing slash need a directory) ends at a directory, and `n`
+    is `.`, `..` or has an inode below it.  No read permission is involved. -/
+def World.entryAt (w : World) (pre : Path) (n : Name) : Bool :=
+  !(dirPath pre).contains '\x00' && w.fdFree &&
+    match w.get (absPath (dirPath pre)) with
+    | some key => w.isDir key && (n == dot || n == dotdot || (w.kindAt (key ++ [n])).isSome)
+    | none => false
+
+/-- `fstatat(AT_FDCWD, p, follow)` succeeds: no NUL, and the look-up of `p`, following a final symbolic
+    link hop by hop (each target resolved in the directory of the link being followed, at most
+    `symloopMax` look-ups), ends at a node -/
+def World.resolves (w : World) (p : Path) : Bool :=
+  !p.contains '\x00' && w.follow YashModel.Generated.GlobTables.symloopMax (absPath p)
+
+def inodeStep (m : Matcher) (w : World) (pre : Path) (c : List AttrChar) (n : Name) : Bool :=
+  match m.kind (toPattern c) with
+  | Kind.invalid => n == removeQuotes c
+  | Kind.literal s => n == s
+  | Kind.pattern => w.entryAt pre n && n != dot && n != dotdot && m.isMatch (toPattern c) n
+
+def inodeWitness (m : Matcher) (w : World) : Path → List AttrChar → List (List AttrChar) → List Name → Bool
+  | pre, c, [], [n] => inodeStep m w pre c n && (isWild m c || w.resolves (pre ++ n))
+  | pre, c, c' :: cs, n :: ns => inodeStep m w pre c n && inodeWitness m w (pre ++ n ++ ['/']) c' cs ns
+  | _, _, _, _ => false
+
+/-- **the member predicate on the inode table**: `p = n₁/…/nₖ`, one name per component of the field; a
+    component that is not a pattern contributes its text; a pattern component contributes an entry
+    (`World.entryAt`) of the directory named by what precedes it, other than `.`/`..`, that the pattern
+    matches; and if the last component is not a pattern, `p` resolves (`World.resolves`) -/
+def InodeMember (m : Matcher) (w : World) (field : List AttrChar) (p : Path) : Prop :=
+  ∃ names, inodeWitness m w [] (splitComponents field).1 (splitComponents field).2 names = true
+    ∧ p = joinPath names
+
+/-- `out` is the strictly sorted list of exactly the members, or — with `noglob`, or when there is no
+    member — the field itself with quotes removed -/
+def InodeResult (m : Matcher) (w : World) (noglob : Bool) (field : List AttrChar) (out : List Path) : Prop :=
+  (noglob = true ∨ (∀ p, ¬ InodeMember m w field p) → out = [removeQuotes field]) ∧
+  (noglob = false → (∃ p, InodeMember m w field p) →
+      StrictSorted out ∧ ∀ p, p ∈ out ↔ InodeMember m w field p)
+
 end YashModel.Glob
